@@ -67,4 +67,22 @@ var props = map[string]propCfg{
 		Stub:           []string{"worker process management (fork/exec, socket activation): the WorkerToken is built by a white-box constructor", "TCP between server and worker: scripted RoundTripper dispatching into the real handler", "token hardware: scripted sim token with key generations"},
 		RequiredProbes: []string{"rpc-http503", "rpc-refused", "rpc-reseteof", "rpc-stall", "rpc-http403", "rpc-malformed", "backend-usage", "backend-retryable", "backend-pkcs11-fatal", "backend-pkcs11-user", "backend-hang", "cancelled-cancel", "cancelled-deadline", "final-op", "rotated-key-seen", "pinned-old-id-after-rotation", "rpc-bad-cookie", "worker-shutdown-requested"},
 	},
+	"C04": {
+		Level:    "exploration",
+		Quick:    tierCfg{Workers: 16, RunsPerWorker: 60, BudgetS: 45, MinimiseS: 10, CanaryEvery: 20},
+		Thorough: tierCfg{Workers: 16, RunsPerWorker: 8000, BudgetS: 700, MinimiseS: 60, CanaryEvery: 50},
+		Rule: "A run = one generated configuration (3 keys on 1-2 scripted tokens with role sets, hidden flags; aliases to real keys, dangling, alias-of-alias, alias with own roles; token-less key; clients by fingerprint (upper/lower case, nicknames) and by issuing CA; trusted proxies none / one address / a /8; certificate or policy authentication) and a history of 20-60 requests (/sign, /keys/{k}, /list_keys, /, /health, /directory) from direct peers, trusted proxies forwarding a client certificate, and untrusted peers spoofing X-Forwarded-For / Ssl-Client-Cert, with TLS identities known / unknown / CA-issued / expired / none, bearer tokens, malformed sign parameters and policy-service faults (5xx, garbage, reset, stall). Each response is judged by a reference authorisation function written from the statement plus the token op-log ('nothing touched before refusal'), the recovered-panic log, certificate/signature verification of what was returned and the audit record's recorded address and identity. evaluations = requests; a signature is (endpoint, identity class, via proxy, spoofed, policy mode, key class, entitled, bad-parameter kind); distinct_nontrivial counts distinct signatures.",
+		Assumptions: []string{
+			"401 and 403 are never distinguished; requests refused for malformed parameters need only be non-2xx with no token operation",
+			"a policy-service failure must end in a refusal (non-2xx, no token operation) - the status code is not prescribed",
+			"key listings are not judged for an alias whose target is hidden (statement is silent)",
+			"forwarded requests are generated only in the unambiguous shape (client hop in X-Forwarded-For plus a certificate header, no TLS certificate of the proxy itself); peers always have IP addresses",
+			"CA-matched client groups do not overlap (Go map iteration order is not seedable)",
+			"the policy stub returns roles only (no by-name grants)",
+			"a panic is recognised by the 'stack' field the recovery middleware logs; a plain 500 is not a panic",
+		},
+		Real:           append([]string{"server.New + chi handler chain, internal/authmodel (CertificateAuth, PolicyAuth, Middleware), internal/realip, config.Normalize/GetKey/client Match, view_sign/view_getkey/view_listkeys, internal/signinit, signers/ps + authenticode, lib/audit file sink, tokencache wrappers, net/http.Client to the policy service"}, commonReal...),
+		Stub:           []string{"token hardware (sim token with op-log)", "policy service (scripted OPA peer behind http.DefaultTransport)", "TLS and connection handling (handler called directly with a simulated peer address and TLS peer chain)"},
+		RequiredProbes: []string{"spoofed-identity-headers", "malformed-entry-requested", "unentitled-refused", "entitled-served", "policy-service-http500", "policy-service-garbage", "policy-service-stall", "policy-service-reset"},
+	},
 }
